@@ -209,6 +209,17 @@ void XMLWriter::location(const location_t& loc)
     endElement();  // end of the "location" element
 }
 
+/* writes a branchpoint; its id follows the ids of the locations */
+void XMLWriter::branchpoint(const branchpoint_t& bp)
+{
+    int id = nrLocations + bp.bpNr;
+    startElement("branchpoint");
+    writeAttribute("id", concat("id", id).c_str());
+    writeAttribute("x", std::to_string(STEP * id).c_str());
+    writeAttribute("y", std::to_string(STEP * id).c_str());
+    endElement();
+}
+
 /* writes the init tag */
 void XMLWriter::init(const template_t& templ)
 {
@@ -221,7 +232,7 @@ void XMLWriter::init(const template_t& templ)
 /* writes the source of the given edge */
 int XMLWriter::source(const edge_t& edge)
 {
-    int loc = edge.src->nr;
+    int loc = edge.src != nullptr ? edge.src->nr : nrLocations + edge.srcb->bpNr;
     const auto id = concat("id", loc);
     startElement("source");
     writeAttribute("ref", id.c_str());
@@ -232,7 +243,7 @@ int XMLWriter::source(const edge_t& edge)
 /* writes the target of the given edge */
 int XMLWriter::target(const edge_t& edge)
 {
-    int loc = edge.dst->nr;
+    int loc = edge.dst != nullptr ? edge.dst->nr : nrLocations + edge.dstb->bpNr;
     const auto id = concat("id", loc);
     startElement("target");
     writeAttribute("ref", id.c_str());
@@ -275,7 +286,7 @@ void XMLWriter::transition(const edge_t& edge)
     auto src = source(edge);
     auto dst = target(edge);
     if (src == dst) {
-        float angle = (edge.src->uid.get_name() != "lpmin") ? (3 * M_PI_2) : M_PI;
+        float angle = (edge.src == nullptr || edge.src->uid.get_name() != "lpmin") ? (3 * M_PI_2) : M_PI;
         selfLoop(src, angle, edge);
     } else {
         int x = STEP * src;
@@ -325,10 +336,14 @@ void XMLWriter::taTempl(const template_t& templ)
     writeElement("declaration", declarations.c_str());
 
     // locations
+    nrLocations = static_cast<int32_t>(templ.locations.size());
     for (auto& loc : templ.locations) {
         location(loc);
         selfLoops[loc.nr] = 0;
     }
+    // branchpoints
+    for (auto& bp : templ.branchpoints)
+        branchpoint(bp);
     // initial location
     init(templ);
     // transitions
